@@ -71,9 +71,13 @@ func runPipe(c *Ctx) {
 	}
 	if p.wants("C08") {
 		pDirectedD5(p)
+		pDirectedNoSilence(p)
 	}
-	if p.wants("C05", "C07", "C08") {
+	if p.wants("C05", "C06", "C07", "C08") {
 		n := c.pick(60, 1200)
+		if !p.wants("C05", "C07", "C08") {
+			n = c.pick(25, 400)
+		}
 		for i := 0; i < n; i++ {
 			pRandomWorkload(p, i)
 		}
@@ -227,8 +231,15 @@ func (p *pipeCtx) goPredicates(r *pRun, res *pResult, o pEvalOpts, desc map[stri
 	}
 	// C08
 	if p.wants("C08") {
+		if r.hasEventLocked("worker.exit") {
+			for _, id := range ids {
+				if r.retAcc[id] && r.ops[id].Ch == "buf" && len(r.recvd[id]) == 0 {
+					c.violation(o.sig, fmt.Sprintf("run %s: the flush worker exited but accepted batch %d (buffered channel) was met with silence", r.name, id), desc)
+				}
+			}
+		}
 		for _, k := range r.lateStore {
-			c.violation(o.sig, fmt.Sprintf("run %s: %s started under a live context after Stop returned its deadline error", r.name, k), desc)
+			c.violation(o.sig, fmt.Sprintf("run %s: store work after Stop returned its deadline error: %s", r.name, k), desc)
 		}
 	}
 	// C09
@@ -320,6 +331,30 @@ func pDirectedD9(p *pipeCtx) {
 	}
 }
 
+// one flush request whose first waiter abandoned its unbuffered channel: the deadline frees the worker, and the
+// waiters behind it that can receive must still get their value
+func pDirectedNoSilence(p *pipeCtx) {
+	for v := 0; v < 3; v++ {
+		o := defaultOpts()
+		r := newPRun(p.c, fmt.Sprintf("abandoned-first-waiter-%d", v), o)
+		if v == 1 {
+			r.plan.fail("Update", 0) // the error path delivers through the same helper
+		}
+		ctx := context.Background()
+		r.start()
+		r.ingest(ctx, "abandon", simpleBatch(r, 1))
+		r.ingest(ctx, "buf", simpleBatch(r, 2))
+		r.ingest(ctx, "drain", simpleBatch(r, 1))
+		if v == 2 {
+			r.ingest(ctx, "abandon", simpleBatch(r, 1))
+			r.ingest(ctx, "buf", simpleBatch(r, 1))
+		}
+		r.stopWithDeadline(15 * time.Millisecond)
+		res := r.finish(3*time.Second, true)
+		p.emit(r, res, pEvalOpts{props: []string{"C08"}, nontrivial: true, kind: "directed-abandoned-waiter"})
+	}
+}
+
 func waitFor(cond func() bool, max time.Duration) bool {
 	deadline := time.Now().Add(max)
 	for time.Now().Before(deadline) {
@@ -344,6 +379,15 @@ func (r *pRun) hasEvent(kind string, atLeast int) bool {
 		return n > 0
 	}
 	return n >= atLeast
+}
+
+func (r *pRun) hasEventLocked(kind string) bool {
+	for _, e := range r.evs {
+		if e.Kind == kind {
+			return true
+		}
+	}
+	return false
 }
 
 func (r *pRun) hasEventS(kind, s string) bool {
@@ -491,7 +535,7 @@ func pRandomWorkload(p *pipeCtx, idx int) {
 	c.dist("producers", fmt.Sprint(nProd))
 	nontrivial := nProd >= 2 || stopKind != "none" || nFaults > 0
 	sig := ""
-	p.emit(r, res, pEvalOpts{props: []string{"C05", "C07", "C08"}, sig: sig, nontrivial: nontrivial, kind: "random",
+	p.emit(r, res, pEvalOpts{props: []string{"C05", "C06", "C07", "C08"}, sig: sig, nontrivial: nontrivial, kind: "random",
 		extra: map[string]any{"producers": nProd, "stop": stopKind, "start_mode": startMode, "faults": nFaults, "wedged": wedged}})
 }
 
@@ -531,7 +575,7 @@ func pFaultRun(p *pipeCtx, name string, hasAbort bool, faults []pFaultPoint, sha
 	ingest(2, 1, -1, chs[shape%4])
 	r.flush(ctx)
 	r.queryVisible(r.eng)
-	ingest(3, 2, 1, "buf") // unmarshalable row in the middle
+	ingest(4, 2, 1+shape%3, "buf") // unmarshalable row: first or a later row of its partition
 	ingest(3, 2+shape%2, -1, chs[(shape+1)%4])
 	if shape%3 == 0 {
 		ingest(1, 1, -1, "buf") // shares the flush (and the fate) of the previous batch
